@@ -303,6 +303,7 @@ RULES = [
     ("C12-R2", "regex cache key determines the translator", r2),
     ("C12-R3", "negative text operators are the negation of their positive arm, result by result", r3),
     ("C12-R4", "operator -> translator dispatch, subject/pattern sides, is_glob", r4),
+    ("X-LITERAL", "a literal is never answered from the text-keyed per-entry memo [shared]", lambda ctx: __import__("extra").literal_before_memo(ctx)),
 ]
 
 EXPLANATION = (
